@@ -20,7 +20,7 @@ import (
 	"verif/internal/prog"
 )
 
-const traceSet = "openat,open,creat,write,pwrite64,lseek,close,dup,dup2,dup3,fcntl,renameat,renameat2,rename,unlinkat,unlink,rmdir,mkdirat,mkdir,ftruncate,fallocate,fsync,fdatasync"
+const traceSet = "openat,open,creat,write,pwrite64,lseek,close,dup,dup2,dup3,fcntl,renameat,renameat2,rename,unlinkat,unlink,rmdir,mkdirat,mkdir,ftruncate,fallocate,fsync,fdatasync,getdents64"
 
 // InfraError marks a problem of the machinery (strace missing, emulator self-check failed): exit 2, never a violation.
 type InfraError struct{ Msg string }
